@@ -5,7 +5,7 @@ from .common import *
 
 META = {
     "level": "other",
-    "explanation": "Offset algebra and sibling agreement: (R1) RawCopy._parse takes offset1 at entry, parses the inner construct, takes offset2, seeks back to offset1 and re-reads exactly offset2-offset1 bytes, ends at offset2, and returns data/value/offset1/offset2/length bound to exactly those quantities (symbolic position algebra: offset1 = P0, offset2 = P0 + D, data = read of D bytes starting at P0, length = D); (R2) RawCopy._build: the `data` branch writes obj['data'] with its own length between two tells, the `value` branch builds the value between two tells, seeks back and re-reads offset2-offset1 bytes ending at offset2; both return offsets/length bound to those tells on top of what obj carried; with neither key RawCopyError; the data branch is selected by key presence; (R3) Checksum computes the same digest term hashfunc(bytesfunc(context)) in _parse and _build, parse raises ChecksumError exactly when stored != computed and returns the stored digest, build always writes the computed digest (never the supplied obj) and returns it; (R4) build_file opens the file for reading as well as writing in binary mode, so that RawCopy can read back. R2 also: the freshly measured data/value/offset1/offset2/length are the last word in RawCopy._build's result (entries of the supplied object never override them); (R5) the offsets RawCopy sees inside delimiting wrappers are absolute: every substream is created with the outer tell at the region's first byte (shared with C08.R3).",
+    "explanation": "Offset algebra and sibling agreement: (R1) RawCopy._parse takes offset1 at entry, parses the inner construct, takes offset2, seeks back to offset1 and re-reads exactly offset2-offset1 bytes, ends at offset2, and returns data/value/offset1/offset2/length bound to exactly those quantities (symbolic position algebra: offset1 = P0, offset2 = P0 + D, data = read of D bytes starting at P0, length = D); (R2) RawCopy._build: the `data` branch writes obj['data'] with its own length between two tells, the `value` branch builds the value between two tells, seeks back and re-reads offset2-offset1 bytes ending at offset2; both return offsets/length bound to those tells on top of what obj carried; with neither key RawCopyError; the data branch is selected by key presence; (R3) Checksum computes the same digest term hashfunc(bytesfunc(context)) in _parse and _build, parse raises ChecksumError exactly when stored != computed and returns the stored digest, build always writes the computed digest (never the supplied obj) and returns it; (R4) build_file opens the file for reading as well as writing in binary mode, so that RawCopy can read back. R2 also: the freshly measured data/value/offset1/offset2/length are the last word in RawCopy._build's result (entries of the supplied object never override them); (R5) the offsets RawCopy sees inside delimiting wrappers are absolute: every substream is created with the outer tell at the region's first byte (shared with C08.R3). (R6) the generated code of RawCopy, Checksum, Pointer, Tell, Prefixed, FixedSized agrees with the interpreter (shared with C04.R3/R8).",
     "undecided": "Corruption detection for an arbitrary hash function is a property of that function; that parsing data alone yields value needs the inner construct to be position independent.",
     "trusted_base": ["python ast (3.12)", "sa.summ summariser", "sa.pos position algebra"],
     "assumptions": ["the inner construct advances the stream by D >= 0 and leaves it at P0 + D on success"],
@@ -96,7 +96,9 @@ def run(ctx):
             seen.add("neither")
             ctx.ob("C14.R2", fi, p.outcome[0] == "raise" and p.outcome[1].get("cls") == "RawCopyError" and not p.of("WRITE", "SUB"), "neither key: RawCopyError before anything is written", key="neither")
     ctx.ob("C14.R2", fi, seen == {"data", "value", "neither"}, "data / value / neither branches analysed (%s)" % sorted(seen), key="branches covered")
-    ctx.floor("C14.R2", 9)
+    from . import C02
+    C02.substitution_checks(ctx, "C14.R2", only={"RawCopy"})     # the supplied record is replaced by a default only when it is None
+    ctx.floor("C14.R2", 10)
 
     # ---------------------------------------------------------------- R3
     digest = ("call", N.selfattr("hashfunc"), (("call", N.selfattr("bytesfunc"), (CTX,), ()),), ())
@@ -143,6 +145,9 @@ def run(ctx):
         if o.rule == "C08.R3":
             ctx.ob("C14.R5", o.where, o.ok, o.what, key=o.key, loc=o.loc, detail=o.detail)
     ctx.floor("C14.R5", 12)
+    from . import C04
+    C04.shared_obligations(ctx, "C14.R6", {"RawCopy", "Checksum", "Pointer", "Tell", "Prefixed", "FixedSized"})
+    ctx.floor("C14.R6", 6)
 
     # positive control: length = offset2
     ctl = control_model(
